@@ -532,12 +532,6 @@ theorem udpFinish5 (a b c d e : Byte) (addr : Bytes) (p : Nat) (payload : Bytes)
   conv => lhs; arg 1; arg 3; rw [e2, List.drop_succ_cons]
   exact this
 
-/-- The host text `parseUDPHeader` reports for a header built from `host`. -/
-def rebuiltHost (c : IPText) (host : Text) : Text :=
-  match c.parse host with
-  | some ip => ipString c ip
-  | none => host
-
 theorem build_parse (c : IPText) (hrt : c.RT) (host : Text) (port : Nat) (payload : Bytes)
     (hp : port < 65536) (hh : c.parse host = none → host.length ≤ 255) :
     parseUDPHeader c (buildUDPHeader c host port payload) = .ok ⟨rebuiltHost c host, port, payload⟩ := by
@@ -1249,5 +1243,46 @@ theorem relay_holds (c : IPText) (ds : List Bytes) (sch : List RStep)
 /-- Every schedule that reads all datagrams and runs all goroutines exists: read everything, then
 run the goroutines front to back. -/
 def fifoSchedule (n : Nat) : List RStep := List.replicate n .read ++ List.replicate n (.run 0)
+
+/-! ### The relay, both directions -/
+
+theorem expect_wf (c : IPText) (hrt : c.RT) (data : Bytes) (d : UDest) (h : udpExpect c data = some d) :
+    d.port < 65536 ∧ (c.parse d.host = none → d.host.length ≤ 255) := by
+  have hs := parseUDP_spec c data
+  rw [h] at hs
+  cases hp : parseUDPHeader c data with
+  | fail e => simp [hp, UOut.res] at hs
+  | ok d' =>
+    simp only [hp, UOut.res, Option.some.injEq] at hs
+    subst hs
+    exact parse_ok_wf c hrt data d' hp
+
+theorem reply_expect (c : IPText) (hrt : c.RT) (d : UDest) (resp : Bytes) (hp : d.port < 65536)
+    (hh : c.parse d.host = none → d.host.length ≤ 255) :
+    udpExpect c (replyDatagram c d resp) = some ⟨rebuiltHost c d.host, d.port, resp⟩ := by
+  rw [← parseUDP_spec, replyDatagram, build_parse c hrt d.host d.port resp hp hh]
+  rfl
+
+theorem relayIO_holds (c : IPText) (hrt : c.RT) (dns : Bool) (answer : Bool → Bytes → Bytes) (ds : List Bytes)
+    (sch : List RStep) (hq : ((Relay.init ds).exec c .copyAtRead sch).quiescent = true) :
+    holdsRelayIO c dns answer ds
+      (relayIO c dns answer ((Relay.init ds).exec c .copyAtRead sch).sent) = true := by
+  have hperm : ((Relay.init ds).exec c .copyAtRead sch).sent.Perm (relayExpect c ds) :=
+    List.isPerm_iff.mp (relay_holds c ds sch hq)
+  generalize ((Relay.init ds).exec c .copyAtRead sch).sent = sent at hperm
+  unfold holdsRelayIO relayIO
+  simp only [Bool.and_eq_true, List.isPerm_iff]
+  refine ⟨⟨hperm.filter _, (hperm.filter _).map _⟩, ?_⟩
+  have hmap : (sent.map (fun d => replyDatagram c d (answer (isDnsRoute dns d) d.payload))).map (udpExpect c) =
+      sent.map (fun d => some (⟨rebuiltHost c d.host, d.port, answer (isDnsRoute dns d) d.payload⟩ : UDest)) := by
+    rw [List.map_map]
+    apply List.map_congr_left
+    intro d hd
+    have hmem : d ∈ relayExpect c ds := hperm.mem_iff.mp hd
+    obtain ⟨data, _, hdata⟩ := List.mem_filterMap.mp hmem
+    obtain ⟨hp, hh⟩ := expect_wf c hrt data d hdata
+    exact reply_expect c hrt d _ hp hh
+  rw [hmap]
+  exact hperm.map _
 
 end Tunnox.C20
